@@ -21,7 +21,7 @@ THEOREMS = ["verifySignable_complete", "junk_irrelevant", "own_signatures_verify
 
 def run(ck: Check) -> None:
     rng = ck.rng
-    n = 2000 if ck.thorough else 400
+    n = ck.n(2000, 400)
     batch = signable_batch(ck, n)
     cases = []
     for case, want, c in batch:
@@ -43,7 +43,7 @@ def run(ck: Check) -> None:
     # everything produced by the library's own signing functions verifies
     from .. import impl
     own = []
-    for i in range(300 if ck.thorough else 80):
+    for i in range(ck.n(300, 80)):
         signed = envgen.payload(rng)
         ks = [gen.key(j) for j in rng.sample(range(10), rng.randint(1, 4))]
         try:
